@@ -6,6 +6,7 @@
 (* seeded stream consumed by one thread is never perturbed by another.  Seq/Result: the result of the run    *)
 (* under the forced schedule (or another thread count / a repeated run) is bit-identical to the reference.   *)
 EXTENDS TraceBase, Integers
+CONSTANT PropOnly
 Threads == 0..63
 VARIABLES l, phase, last, has, ref, nres
 tvars == <<l, phase, last, has, ref, nres>>
@@ -27,9 +28,12 @@ TRead == /\ l <= Len(Tr) /\ Ev.e = "Read" /\ phase = "rec" /\ Step
 TResult == /\ l <= Len(Tr) /\ Ev.e = "Result" /\ phase = "rec" /\ Step
            /\ <<Ev.h[1], Ev.h[2], Ev.h[3]>> = ref               \* bit-identical to the sequential / reference run
            /\ nres' = nres + 1 /\ UNCHANGED <<phase, last, has, ref>>
+\* implementation-shaped observation: the validation call leaves the caller's own seeded stream untouched
+TCaller == /\ l <= Len(Tr) /\ Ev.e = "Caller" /\ phase = "rec" /\ Step /\ (PropOnly \/ Ev.same = 1)
+           /\ UNCHANGED <<phase, last, has, ref, nres>>
 TEnd == /\ l <= Len(Tr) /\ Ev.e = "End" /\ phase = "rec" /\ Step /\ nres >= 1
         /\ phase' = "idle" /\ UNCHANGED <<last, has, ref, nres>>
-TNext == TReset \/ TRun \/ TSeq \/ TWrote \/ TRead \/ TResult \/ TEnd
+TNext == TReset \/ TRun \/ TSeq \/ TWrote \/ TRead \/ TResult \/ TCaller \/ TEnd
 TSpec == TInit /\ [][TNext]_tvars
 TraceAccepted == Accepted
 Diag == ShowCursor(l)
